@@ -15,6 +15,7 @@ type schedParams struct {
 	replayDir  string
 	maxVio     int
 	noMinimise bool
+	ctl        *replayCtl
 }
 
 var policies = []struct {
@@ -49,11 +50,22 @@ func genSchedSpec(p *schedParams, c *Corpus, run int, cold bool) *RunSpec {
 	herd := rd.Chance(1, 2)
 	switch {
 	case cold:
+		// the process's very first conversions: whatever is initialised lazily at package
+		// level (today the entity table; a change could add more) is first touched here, so
+		// the documents are chosen to reach as many such corners as possible
+		fam := pick(rd, []string{"entity", "entity", "unilabel", "any", "mix"})
 		for i := 0; i < n; i++ {
-			if rd.Chance(2, 3) && len(c.Entity) > 0 {
+			switch {
+			case fam == "entity" && rd.Chance(2, 3) && len(c.Entity) > 0:
 				docs = append(docs, pick(rd, c.Entity))
-			} else {
+			case fam == "entity":
 				docs = append(docs, genFamily(rd, "entity"))
+			case fam == "unilabel":
+				docs = append(docs, genFamily(rd, "unilabel"))
+			case fam == "any":
+				docs = append(docs, genAnyDoc(rd, c))
+			default:
+				docs = append(docs, genFamily(rd, pick(rd, families)))
 			}
 		}
 	case herd:
@@ -124,6 +136,12 @@ func genSchedSpec(p *schedParams, c *Corpus, run int, cold bool) *RunSpec {
 
 func schedRunOne(p *schedParams, st *Stats, spec *RunSpec) {
 	v := executeSpec(spec, st)
+	if p.ctl != nil {
+		if v != nil {
+			p.ctl.capture(spec, v)
+		}
+		return
+	}
 	st.Inc("evaluations")
 	st.Inc("policy." + spec.Policy)
 	st.Inc(fmt.Sprintf("workers.%d", len(spec.Clients)))
@@ -175,7 +193,16 @@ func schedWorker(p *schedParams, st *Stats) {
 		schedRunOne(p, st, genSchedSpec(p, c, p.coldRun, true))
 		return
 	}
-	for run := p.shard; run < p.runs; run += p.of {
+	start := p.shard
+	if p.ctl != nil {
+		start = p.ctl.from
+	} else {
+		curProc = &ProcHistory{Tier: p.tier, Shard: p.shard, Of: p.of, Runs: p.runs}
+	}
+	for run := start; run < p.runs; run += p.of {
+		if p.ctl != nil && run > p.ctl.until {
+			break
+		}
 		schedRunOne(p, st, genSchedSpec(p, c, run, false))
 		if len(st.Trouble) > 0 {
 			return
